@@ -41,7 +41,7 @@ import re, glob
 EXP = "exploration"
 for nf in sorted(glob.glob(os.path.join(V, "notes", "C*.md"))):
     txt = open(nf).read()
-    m = re.search(r"roposed MANIFEST.*?```python\n(.*?)```", txt, re.S)
+    m = re.search(r"roposed MANIFEST.*?```(?:python)?\n(.*?)```", txt, re.S)
     if not m:
         continue
     try:
